@@ -20,7 +20,7 @@ from wire import RAISES, WRONG, Boom  # noqa: E402
 NAN = float("nan")
 INF = float("inf")
 
-# record layout: columns 0..3 numeric, 4 string, 5 bool, 6 vector (dimension 2)
+# record layout: columns 0..3 numeric, 4 string or None, 5 bool, 6 vector (dimension 2), 7 string
 NUM_COLS = [0, 1, 2, 3]
 # selections multiply the weight by the quantity: column 3 never holds +-inf, so that weights stay
 # finite (infinite weights are outside the stated domain of every property)
@@ -28,7 +28,8 @@ SEL_COL = 3
 STR_COL = 4
 BOOL_COL = 5
 VEC_COL = 6
-NCOLS = 7
+PURE_STR_COL = 7   # strings only (Bag range "S" rejects None)
+NCOLS = 8
 
 LEAVES = ["Count", "Sum", "Average", "Deviate", "Minimize", "Maximize", "Bag"]
 SINGLE = ["Bin", "SparselyBin", "CentrallyBin", "IrregularlyBin", "Categorize", "Select"]
@@ -94,7 +95,7 @@ def gen_spec(rng, depth, kinds=None, leaf_kinds=None, allow_bag=True):
         return {"k": k, "q": gen_q(rng, cols)}
     if k == "Bag":
         r = rng.choice(["S", "N", "N", "N2"])
-        col = {"S": STR_COL, "N": rng.choice(NUM_COLS), "N2": VEC_COL}[r]
+        col = {"S": PURE_STR_COL, "N": rng.choice(NUM_COLS), "N2": VEC_COL}[r]
         return {"k": "Bag", "q": [col, rng.choice(NAMES)], "range": r}
     if k == "Bin":
         n = rng.choice([1, 2, 3, 4, 5, 8])
@@ -253,6 +254,7 @@ def gen_datum(rng, crit, fault_rate=0.0):
     d.append(None if r < 0.08 else rng.choice(CATS))
     d.append(rng.random() < 0.6)
     d.append([rng.choice([0.0, 1.0, 2.5, NAN, -1.5]), rng.choice([0.0, 1.0, INF, 0.5])])
+    d.append(rng.choice(CATS))
     if fault_rate and rng.random() < fault_rate:
         i = rng.randrange(NCOLS)
         d[i] = RAISES if rng.random() < 0.5 else WRONG
@@ -272,3 +274,114 @@ def gen_weight(rng, gate_rate=0.15):
 def gen_stream(rng, spec, n, fault_rate=0.0, gate_rate=0.15):
     crit = critical_values(spec)
     return [(gen_datum(rng, crit, fault_rate), gen_weight(rng, gate_rate)) for _ in range(n)]
+
+
+# ---------------------------------------------------------------- structural perturbation (C09, C10)
+
+def _paths(spec, path=()):
+    yield path
+    for key in ("value", "underflow", "overflow", "nanflow", "cut"):
+        if isinstance(spec.get(key), dict):
+            yield from _paths(spec[key], path + (key,))
+    if isinstance(spec.get("pairs"), dict):
+        for k, s in spec["pairs"].items():
+            yield from _paths(s, path + ("pairs", k))
+    if isinstance(spec.get("values"), list):
+        for i, s in enumerate(spec["values"]):
+            yield from _paths(s, path + ("values", i))
+
+
+def _get(spec, path):
+    for p in path:
+        spec = spec[p]
+    return spec
+
+
+def _depth(path):
+    return sum(1 for p in path if p in ("value", "underflow", "overflow", "nanflow", "cut", "pairs", "values"))
+
+
+def perturb_spec(rng, spec, allow_type_swap=True):
+    """A copy of `spec` that differs in exactly one structural parameter or one child type at a
+    random position.  Returns (spec2, description, depth of the changed node) or None."""
+    import copy
+
+    for _try in range(40):
+        s2 = copy.deepcopy(spec)
+        # all (path, change) candidates; parameter changes are weighted above plain type swaps
+        cands = []
+        for path in _paths(s2):
+            k0 = _get(s2, path)["k"]
+            per = {"Bin": ["n", "low", "high"], "SparselyBin": ["width", "origin"], "CentrallyBin": ["center", "addcenter"],
+                   "IrregularlyBin": ["edge", "addedge", "dropedge"], "Stack": ["edge", "addedge", "dropedge"],
+                   "Bag": ["range"], "Label": ["renamekey", "addmember"], "UntypedLabel": ["renamekey", "addmember"],
+                   "Index": ["addmember"], "Branch": ["addmember"]}.get(k0, [])
+            for c0 in per:
+                cands += [(path, c0)] * 4
+            if allow_type_swap:
+                cands.append((path, "type"))
+        if not cands:
+            return None
+        path, c = rng.choice(cands)
+        node = _get(s2, path)
+        k = node["k"]
+        desc = "%s at /%s: %s" % (k, "/".join(map(str, path)), c)
+        if c == "n":
+            node["n"] = node["n"] + 1
+        elif c == "low":
+            node["low"] = node["low"] - 0.5
+        elif c == "high":
+            node["high"] = node["high"] + 0.5
+        elif c == "width":
+            node["width"] = node["width"] * 2
+        elif c == "origin":
+            node["origin"] = node["origin"] + 0.25
+        elif c == "center":
+            i = rng.randrange(len(node["centers"]))
+            node["centers"][i] = node["centers"][i] + 0.25
+            if sorted(set(node["centers"])) != node["centers"]:
+                continue
+        elif c == "addcenter":
+            node["centers"] = node["centers"] + [node["centers"][-1] + 1.0]
+        elif c == "edge":
+            i = rng.randrange(len(node["edges"]))
+            node["edges"][i] = node["edges"][i] + 0.25
+            if sorted(set(node["edges"])) != node["edges"]:
+                continue
+        elif c == "addedge":
+            node["edges"] = node["edges"] + [node["edges"][-1] + 1.0]
+        elif c == "dropedge":
+            if len(node["edges"]) < 2:
+                continue
+            node["edges"] = node["edges"][:-1]
+        elif c == "range":
+            node["range"] = {"S": "N", "N": "N2", "N2": "N"}[node["range"]]
+            node["q"][0] = {"S": PURE_STR_COL, "N": 0, "N2": VEC_COL}[node["range"]]
+        elif c == "renamekey":
+            keys = list(node["pairs"])
+            old = rng.choice(keys)
+            node["pairs"] = {(kk + "x" if kk == old else kk): v for kk, v in node["pairs"].items()}
+        elif c == "addmember":
+            if k in ("Label", "UntypedLabel"):
+                first = next(iter(node["pairs"].values()))
+                node["pairs"]["zz"] = copy.deepcopy(first)
+            else:
+                node["values"].append(copy.deepcopy(node["values"][0]))
+        elif c == "type":
+            # replace the node by an aggregator of another primitive type
+            repl = rng.choice([{"k": "Count"}, {"k": "Sum", "q": [0, None]}, {"k": "Minimize", "q": [1, None]},
+                               {"k": "Average", "q": [0, None]}, {"k": "Maximize", "q": [1, None]},
+                               {"k": "Deviate", "q": [2, None]}])
+            if repl["k"] == k:
+                continue
+            if not path:
+                s2 = repl
+            else:
+                parent = _get(s2, path[:-1])
+                parent[path[-1]] = repl
+        try:
+            build(s2)
+        except Exception:  # noqa: BLE001
+            continue  # e.g. a Label whose members no longer share one type
+        return s2, desc, _depth(path)
+    return None
